@@ -85,6 +85,11 @@ def corner_cases(D=2):
                    mode="TORUS" if i % 2 == 0 else "SAME", pad=[[0, 0]] * D, stride=[1] * D, rdil=[1] * D, ldil=[1] * D)
         out.append(dict(D=D, cfg=cfg, ins=[[[1, 0], 2], [[0, 1], 1], [[0, 0], 1]], tgt=[[[0, 1], 2], [[0, 0], 1], [[1, 1], 1]], mode=mode,
                         group="B", kmax=2, M=3, seed=1000 + i, ngs=2))
+    # mixed per-axis torus flags, both ways round, on a non-square image (a wrap applied to the wrong / to every axis shows here)
+    for i, torus in enumerate(([True, False], [False, True]) if D == 2 else ()):
+        cfg = dict(N=[2, 3], M=[3] * D, torus=torus, mode="TORUS", pad=[[0, 0]] * D, stride=[1] * D, rdil=[1] * D, ldil=[1] * D)
+        out.append(dict(D=D, cfg=cfg, ins=[[[1, 0], 1], [[0, 0], 2]], tgt=[[[0, 0], 1], [[1, 0], 2]], mode="auto",
+                        group="B", kmax=2, M=3, seed=1100 + i, ngs=2))
     return out
 
 
@@ -129,7 +134,9 @@ def build_layer(case, spec_case, geom, ml, jnp, jr, eqx):
     pad = kw["padding"]
     if cfg["mode"] in ("TORUS", "SAME"):
         pad = None if (cfg["mode"] == "SAME" or any(cfg["torus"])) else "TORUS"
-    layer = ml.ConvContract(in_sig, tg_sig, bank, MODE_ARG[case["mode"]], kw["stride"], pad, kw["lhs_dilation"], kw["rhs_dilation"], key=jr.PRNGKey(1))
+    # two spellings of "no image dilation": (1,..,1) and None (the layer's default; code paths may test `lhs_dilation is None`)
+    ldil = None if (set(cfg["ldil"]) == {1} and case["seed"] % 3 != 0) else kw["lhs_dilation"]
+    layer = ml.ConvContract(in_sig, tg_sig, bank, MODE_ARG[case["mode"]], kw["stride"], pad, ldil, kw["rhs_dilation"], key=jr.PRNGKey(1))
     # integer parameters
     for w in spec_case["W"]:
         s = tuple(case["ins"][w["si"] - 1][0])
